@@ -407,6 +407,18 @@ JsonTokens(st, t) ==
         ELSE (IF need THEN << "," >> ELSE <<>>) \o << "obj" >> \o Go(k + 1, TRUE)
   IN << "[" >> \o Go(1, FALSE)
 
+\* the comma machine as it was found (defect D5): the comma was written as soon as any
+\* further row existed, separators included -- kept so that the bounded model can show the
+\* trailing comma (bin/selftest runs MCRender with JsonVariant = "asfound" and expects TLC to object)
+JsonTokensAsFound(st, t) ==
+  LET T == st.tbl[t]
+      RECURSIVE Go(_, _)
+      Go(k, need) ==
+        IF k > Len(T.rows) THEN << "]" >>
+        ELSE (IF need THEN << "," >> ELSE <<>>)
+             \o (IF st.row[T.rows[k]].sep THEN Go(k + 1, FALSE) ELSE << "obj" >> \o Go(k + 1, TRUE))
+  IN << "[" >> \o Go(1, FALSE)
+
 \* [ (obj (, obj)*)? ]
 JsonTokensOK(toks) ==
   /\ Len(toks) >= 2 /\ toks[1] = "[" /\ toks[Len(toks)] = "]"
@@ -573,12 +585,15 @@ FaultsBad(res) ==
 -----------------------------------------------------------------------------
 (* Model-level refinement checks of the emitters against the declarative parts *)
 
-EmitOK(st, t, fmt) ==
-  LET T == st.tbl[t] IN
+EmitOKV(st, t, fmt, variant) ==
+  LET T == st.tbl[t]
+      jt == IF variant = "asfound" THEN JsonTokensAsFound(st, t) ELSE JsonTokens(st, t)
+  IN
   CASE fmt = "csv"  -> T.ncols = 0 \/ CsvBad(st, t, [status |-> "ok", bytes |-> ConcatSeq(CsvWrites(st, t))]) = {}
-    [] fmt = "json" -> JsonTokensOK(JsonTokens(st, t))
-                       /\ Cardinality({i \in DOMAIN JsonTokens(st, t) : JsonTokens(st, t)[i] = "obj"}) = Len(BodyRowIds(st, T))
+    [] fmt = "json" -> JsonTokensOK(jt) /\ Cardinality({i \in DOMAIN jt : jt[i] = "obj"}) = Len(BodyRowIds(st, T))
     [] OTHER -> TRUE
+
+EmitOK(st, t, fmt) == EmitOKV(st, t, fmt, "repaired")
 
 -----------------------------------------------------------------------------
 (* The auto package: style strings (C19) *)
